@@ -178,16 +178,20 @@ func (p *Processor) Run(ctx context.Context) error {
 					continue
 				}
 
+				// Segments of a partition are handled in offset order. A failure on
+				// one of them ends this cycle for the partition: carrying on with the
+				// next segment would commit a checkpoint past records that were never
+				// written. The failed segment is retried on the next poll.
 				state, err := p.store.LoadOffset(ctx, seg.Topic, seg.Partition)
 				if err != nil {
 					metrics.ErrorsTotal.WithLabelValues("checkpoint").Inc()
-					continue
+					break
 				}
 
 				decoded, err := p.decode.Decode(ctx, seg.SegmentKey, seg.IndexKey, seg.Topic, seg.Partition)
 				if err != nil {
 					metrics.ErrorsTotal.WithLabelValues("decode").Inc()
-					continue
+					break
 				}
 
 				records := mapRecords(decoded)
@@ -202,7 +206,7 @@ func (p *Processor) Run(ctx context.Context) error {
 					resolved, err := p.resolveLfsRecords(ctx, records, mapping.Lfs, seg.Topic)
 					if err != nil {
 						metrics.ErrorsTotal.WithLabelValues("lfs").Inc()
-						continue
+						break
 					}
 					records = resolved
 				}
@@ -225,7 +229,7 @@ func (p *Processor) Run(ctx context.Context) error {
 					log.Printf("sink write failed topic=%s partition=%d offsets=%d-%d: %T %v", first.Topic, first.Partition, first.Offset, last.Offset, err, err)
 					log.Printf("sink write error details: %+v", err)
 					metrics.ErrorsTotal.WithLabelValues("sink").Inc()
-					continue
+					break
 				}
 				metrics.WriteLatency.WithLabelValues(seg.Topic).Observe(float64(time.Since(start).Milliseconds()))
 
